@@ -105,6 +105,15 @@ def check(ctx):
             problems.append('the claim reply is not returned unchanged to the client')
         if selects and calls and not (selects[0] > 0):
             problems.append('Select precedes the forwarded claim')
+        # nothing else in the claim lambda may change who is selected: the only selector members used are Arbitered() (the
+        # forwarded call) and the guarded Select()
+        for k_, t_ in enumerate(body):
+            if t_[0] == 'hole' and t_[1].sym.path[-1:] == ('accessor_target',) and k_ + 3 < len(body) and \
+                    body[k_ + 1] == ('p', '.') and body[k_ + 2][0] == 'id' and body[k_ + 3] == ('p', '('):
+                member = tok_text(body[k_ + 2])
+                if member not in ('Arbitered', 'Select'):
+                    problems.append(f'the claim lambda also calls {member}() on the selector: a claim that is not granted changes '
+                                    f'the selection of the client that holds the claim')
         run.add('C04.grant', MOD, 'initialize_port_claim_snippet', 'claim link: ' + toks_text(body)[:100], not problems,
                 'Select(identifier) only when the forwarded claim returned the granting reply; reply returned'
                 if not problems else '; '.join(problems))
